@@ -4,7 +4,7 @@
 From Coq Require Import String.
 From Coq Require Import List NArith ZArith Bool Arith Lia Permutation.
 From Coq Require Import Init.Byte.
-From FFS Require Import Base.Res Base.Bytes Gen.AbiConsts AbiType.Syntax AbiType.Model Ffi.Model Ffi.Spec.
+From FFS Require Import Base.Res Base.Bytes Gen.AbiConsts AbiType.Syntax AbiType.Model AbiType.ProofsMain Ffi.Model Ffi.Spec.
 Import ListNotations.
 
 Lemma bytes_eqb_refl b : bytes_eqb b b = true.
@@ -34,6 +34,16 @@ Section schema_ind'.
     end.
 End schema_ind'.
 
+Lemma parse_no_panic p : parseABIParameterComponents p <> Panic.
+Proof. destruct (validate_total p) as [H _]. exact H. Qed.
+
+Lemma inputTypeValid_total s tc : inputTypeValidForTypeComponent s tc <> Panic.
+Proof.
+  unfold inputTypeValidForTypeComponent.
+  match goal with |- (if ?c then _ else _) <> _ => destruct c end; [discriminate|].
+  destruct (tc_string_ok tc) as [x ->]. discriminate.
+Qed.
+
 (* ---------- processField, unfolded ---------- *)
 (* processField as the loop body sees it *)
 Definition PF (k : bytes) (ps : option schema) : res fparam :=
@@ -55,14 +65,35 @@ Definition components_of (typ : bytes) (props : list (bytes * option schema)) (i
     match items with None => Err EInvalidDetails | Some it0 => down it0 end
   else Ok [].
 
+(* what processField does once the components are built: parse the parameter, check the JSON type *)
+Definition finish (s : schema) (parameter : fparam) : res fparam :=
+  do tc <- parseABIParameterComponents (erase parameter);
+  do _ <- inputTypeValidForTypeComponent s tc;
+  Ok parameter.
+
 Lemma processSchema_unfold name typ o det props items :
   processSchema name (Schema typ o det props items) =
   match det with
   | None => Err EInvalidDetails
   | Some d => do comps <- components_of typ props items;
-              Ok (FParam name (d_type d) (d_internal d) (d_indexed d) comps)
+              finish (Schema typ o det props items)
+                     (FParam name (d_type d) (d_internal d) (d_indexed d) comps)
   end.
 Proof. destruct det; reflexivity. Qed.
+
+Lemma finish_total s q : finish s q <> Panic.
+Proof.
+  unfold finish. pose proof (parse_no_panic (erase q)) as T.
+  destruct (parseABIParameterComponents (erase q)) as [tc| |]; cbn [bind]; try congruence.
+  pose proof (inputTypeValid_total s tc) as T2.
+  destruct (inputTypeValidForTypeComponent s tc); cbn; congruence.
+Qed.
+
+Lemma finish_ok s q r : finish s q = Ok r -> r = q.
+Proof.
+  unfold finish. destruct (parseABIParameterComponents (erase q)); cbn [bind]; try discriminate.
+  destruct (inputTypeValidForTypeComponent s a); cbn; try discriminate. congruence.
+Qed.
 
 Lemma down_unfold t' o d props' items' :
   down (Schema t' o d props' items') =
@@ -244,10 +275,10 @@ Proof.
     unfold components_of.
     destruct (bytes_eqb t jsonObjectType).
     + pose proof (PF_build_no_panic props HPl) as NP.
-      destruct (buildABIParameterArrayForObject PF props); cbn; congruence.
-    + destruct (bytes_eqb t jsonArrayType); [|cbn; discriminate].
+      destruct (buildABIParameterArrayForObject PF props); cbn [bind]; try congruence. apply finish_total.
+    + destruct (bytes_eqb t jsonArrayType); [|cbn [bind]; apply finish_total].
       destruct items as [it0|]; [|cbn; discriminate].
-      cbn in HI. destruct HI as [_ HD]. destruct (down it0); cbn; congruence.
+      cbn in HI. destruct HI as [_ HD]. destruct (down it0); cbn [bind]; try congruence. apply finish_total.
   - rewrite down_unfold. destruct (bytes_eqb t jsonArrayType).
     + destruct items as [it'|]; [|discriminate]. cbn in HI. tauto.
     + exact (PF_build_no_panic props HPl).
@@ -273,17 +304,6 @@ Proof.
 Qed.
 
 (* ---------- the whole FFI -> ABI conversion never panics ---------- *)
-From FFS Require Import AbiType.ProofsMain.
-
-Lemma parse_no_panic p : parseABIParameterComponents p <> Panic.
-Proof. destruct (validate_total p) as [H _]. exact H. Qed.
-
-Lemma inputTypeValid_total s tc : inputTypeValidForTypeComponent s tc <> Panic.
-Proof.
-  unfold inputTypeValidForTypeComponent.
-  match goal with |- (if ?c then _ else _) <> _ => destruct c end; [discriminate|].
-  destruct (tc_string_ok tc) as [x ->]. discriminate.
-Qed.
 
 Lemma convertFFIParam_total p : convertFFIParam p <> Panic.
 Proof.
